@@ -294,7 +294,9 @@ func c12RoundTrip(r *vf.Run, t *testing.T, id string, rng *rand.Rand) {
 	switch {
 	case res.TimedOut && kind == "wedged-writer" && strings.Contains(strings.Join(res.MutexStuck, "\n"), "(*Ctx).takeBack"):
 		fail("roundtrip-outlives-timeout", "kind wedged-writer: MaxResponseTime has passed and RoundTrip is waiting in takeBack for the request's Ctx, which the write loop holds while it sits in a transport Write the peer never reads (no write deadline, and the ping check runs on the same loop):\n"+strings.Join(res.MutexStuck, "\n"))
-	case res.TimedOut && kind == "redial-black-hole" && strings.Contains(strings.Join(res.MutexStuck, "\n"), "(*Client).pickConn") && strings.Contains(strings.Join(res.Others, "\n"), "(*Dialer).tryDial"):
+	case res.TimedOut && kind == "redial-black-hole" && strings.Contains(strings.Join(res.MutexStuck, "\n"), "http2.(*Client).") && strings.Contains(strings.Join(res.Others, "\n"), "(*Dialer).tryDial"):
+		// (whoever waits for the client's lock - RoundTrip in pickConn, Close of the lost connection in onConnectionDropped -
+		// waits behind a dial that has no time limit; the dialling goroutine is a RoundTrip in pickConn or that same Close)
 		fail("roundtrip-outlives-timeout", "kind redial-black-hole: RoundTrip waits in pickConn for the client's lock, before its timer is even armed; the lock is held by the dial of a replacement connection (made from inside Close of the lost one, or by another RoundTrip), and that dial has no time limit: TCP connect, TLS handshake and the wait for the server's SETTINGS can each last for ever against a host that accepts and never answers:\n"+strings.Join(res.MutexStuck, "\n")+"\n"+strings.Join(res.Others, "\n"))
 	case res.TimedOut && len(res.MutexStuck) > 0:
 		fail("deadlock", "kind "+kind+": the bubble never became quiescent and these goroutines of the client were waiting for a mutex when the watchdog fired:\n"+strings.Join(res.MutexStuck, "\n"))
